@@ -10,6 +10,9 @@ for root in sys.argv[1].split(','):
     ex=E.Explorer(P,max_states=int(sys.argv[2]))
     st,kind=roots.initial_state(ex.m,root)
     st.mon=S.spec_for_root(root,kind)
+    for kv in os.environ.get('PRESET','').split(','):
+        if kv:
+            k,v=kv.split('='); st.env['cfg:'+k]=(v=='1')
     callers={}
     for i in P.insts:
         if i['local'] and not i['npath'].startswith('simd::'):
